@@ -285,14 +285,29 @@ def run_internal(cfg, devs, speed=(1, 1), initial=0, stim=(), t_end=3_000_000_00
         iface = cbus.make_interface(bus)
         get_interface = lambda _name: iface  # noqa: E731  -- a conforming backend substituted for the internal one
 
+    overlap = []   # what no tick may do: start while a participant of the same ticker's previous tick has not answered
+
     async def logged_call(self, time, update_components):
         loop = asyncio.get_event_loop()
+        if getattr(self, "to_update", None):
+            overlap.append(("tick-started-before-the-previous-one-was-answered", int(time), sorted(cid(x) for x in self.to_update)))
         TICKLOG.append((getattr(self.update_component, "__self__", None), int(time),
                         sorted(cid(x) for x in update_components), loop.time_ns()))
         info.setdefault("tickers", {})[id(self)] = self
         return await orig_call(self, time, update_components)
 
     tk.Ticker.__call__ = logged_call
+    from tickit.core.components.system_component import SystemComponent
+    orig_output = SystemComponent.output
+
+    async def logged_output(self, time, changes, call_at):
+        # ... and what no system simulation may do: answer its scheduler while its own inner tick is still running
+        pending = getattr(getattr(getattr(self, "scheduler", None), "ticker", None), "to_update", None)
+        if pending:
+            overlap.append(("system-answered-during-its-inner-tick", int(time), sorted(cid(x) for x in pending)))
+        return await orig_output(self, time, changes, call_at)
+
+    SystemComponent.output = logged_output
 
     async def main(loop):
         configs = build_configs(cfg, devs, 1, fail, adapters)
@@ -381,6 +396,7 @@ def run_internal(cfg, devs, speed=(1, 1), initial=0, stim=(), t_end=3_000_000_00
         err = "exception " + repr(e)
     finally:
         tk.Ticker.__call__ = orig_call
+        SystemComponent.output = orig_output
     per = {}
     for (c, t, i) in TRACE:
         per.setdefault(c, []).append((t, dict(i)))
@@ -396,7 +412,7 @@ def run_internal(cfg, devs, speed=(1, 1), initial=0, stim=(), t_end=3_000_000_00
             lv = sys_level.get(cid(owner.name), 999)     # a scheduler owned by something that is no system simulation of the configuration
         ticklog.append((lv, t, roots))
     return dict(per=per, trace=[(c, t, dict(i)) for (c, t, i) in TRACE], trace_rt=list(TRACE_RT), ticklog=ticklog,
-                mticks=mticks, inj=info.get("inj"), steps=info.get("steps"),
+                mticks=mticks, inj=info.get("inj"), steps=info.get("steps"), overlap=overlap,
                 early_before_scheduler=info.get("early_before_scheduler"),
                 error=err, errors=info.get("errors", []), tasks_done=info.get("tasks_done"), done_by=info.get("done_by"), bus=info.get("bus"),
                 unfinished=info.get("unfinished", []))
